@@ -107,7 +107,7 @@ func (sc *scen) gen() {
 		// integers times 2^-k with k up to 1040: gaps whose squares underflow
 		sc.scale = math.Ldexp(1, -(500 + m.Intn(540, "scale")))
 	case 10:
-		sc.scale = math.Ldexp(1, 40+m.Intn(400, "scale"))
+		sc.scale = math.Ldexp(1, 40+m.Intn(580, "scale")) // up to 2^620: squared distances overflow to +Inf
 	case 11:
 		off = -L / 2
 	}
